@@ -112,18 +112,36 @@ def run_and_validate(rep, cases, label, timeout=2400, variant="gcc"):
     res = validate_trace(tpath, label)
     res["cases_path"] = cpath
     res["crashed"] = False
+    if res.get("ops_tlc") is not None:
+        rep.add_tlc(res["ops_tlc"], "operator-level trace (TraceOps.tla) %s: %d events" % (label, res.get("ops_events", 0)))
+        rep.cov["operator_events_validated"] = rep.cov.get("operator_events_validated", 0) + res.get("ops_events", 0)
     return res
 
 
-def validate_trace(tpath, label):
-    nlines = sum(1 for _ in open(tpath))
-    cfg = os.path.join(vlib.BUILD, "cfg", "trace_solver.cfg")
-    with open(cfg, "w") as f:
-        f.write("SPECIFICATION TraceSpec\nCONSTANTS\n  FIXED = %s\n  MaxCalls = 1000000\n  MaxIterDom = {0,2,30,150}\n  ExtDom = {0,1,2,3}\n"
-                "  LDom = {2,3,4,5,6}\n  MiscDom <- TraceMisc\n  Settable = {}\n  GenHist = FALSE\n"
-                "CONSTRAINT Progress\n"
-                "INVARIANTS ModeAgrees StartIsData StatsDefined HistoriesOwn StopTruth RejectOrRun TimingsOwn NotAccepted\n" % ALL_FIXED)
-    r = vlib.tlc("TraceSolver", cfg, workers=1, env={"TRACE": tpath}, tag="trace" + label, timeout=1800, heap="8g")
+OPS_KEEP = {"Ctor", "SetupBegin", "SetupBuilt", "SetupThrew", "SolveThrew", "SolveEnter", "InitZero", "FMGDirect", "FMGInterp", "FMGCycle",
+            "SolveBegin", "ResNorm", "CycleRun", "CycleDone", "SolveEnd", "Op"}
+
+
+def split_trace(tpath):
+    """one recording, two views: the life-cycle view (everything but operator events) for TraceSolver.tla and the
+    operator view (markers + Op events) for TraceOps.tla.  Lines are copied verbatim, nothing is rewritten."""
+    life, ops = tpath + ".life", tpath + ".ops"
+    nl = no = 0
+    with open(life, "w") as fl, open(ops, "w") as fo:
+        for line in open(tpath):
+            if not line.strip():
+                continue
+            e = json.loads(line).get("e")
+            if e != "Op":
+                fl.write(line)
+                nl += 1
+            if e in OPS_KEEP:
+                fo.write(line)
+                no += 1
+    return life, nl, ops, no
+
+
+def _progress(r):
     prog = 0
     for line in r.out.splitlines():
         if line.startswith('<<"@@L"'):
@@ -131,7 +149,40 @@ def validate_trace(tpath, label):
                 prog = max(prog, int(line.split(",")[1].strip(" >")))
             except Exception:
                 pass
-    res = {"tlc": r, "events": nlines, "progress": prog, "trace_path": tpath, "accepted": False, "violated": None}
+    return prog
+
+
+def validate_ops(opath, label):
+    """operator view of a recording against spec/TraceOps.tla (programs of CycleOps.tla)"""
+    cfg = os.path.join(vlib.BUILD, "cfg", "trace_ops.cfg")
+    os.makedirs(os.path.dirname(cfg), exist_ok=True)
+    with open(cfg, "w") as f:
+        f.write("SPECIFICATION TraceSpec\nCONSTANTS\n  LSet = {2}\n  NuSet = {0}\n  ItsSet = {0}\n  Defects = {}\n  EmitTerms = FALSE\n"
+                "CONSTRAINT Progress\nINVARIANTS NotAccepted Bounded\n")
+    r = vlib.tlc("TraceOps", cfg, workers=1, env={"TRACE": opath}, tag="ops" + label, timeout=1800, heap="8g", stack="512m")
+    res = {"tlc": r, "progress": _progress(r), "trace_path": opath, "accepted": False, "violated": None}
+    if r.rc == 12 and r.violation == "NotAccepted":
+        res["accepted"] = True
+    elif r.rc == 12:
+        res["violated"] = r.violation
+    elif r.rc != 0:
+        raise vlib.HarnessError("operator trace validation failed (rc=%s):\n%s" % (r.rc, r.out[-3000:]))
+    return res
+
+
+def validate_trace(tpath, label):
+    for suffix in (".life", ".ops"):      # a replay names the view that was rejected; both come from the same recording
+        if tpath.endswith(suffix) and os.path.exists(tpath[:-len(suffix)]):
+            tpath = tpath[:-len(suffix)]
+    life, nlines, opath, nops = split_trace(tpath)
+    cfg = os.path.join(vlib.BUILD, "cfg", "trace_solver.cfg")
+    with open(cfg, "w") as f:
+        f.write("SPECIFICATION TraceSpec\nCONSTANTS\n  FIXED = %s\n  MaxCalls = 1000000\n  MaxIterDom = {0,2,30,150}\n  ExtDom = {0,1,2,3}\n"
+                "  LDom = {2,3,4,5,6}\n  MiscDom <- TraceMisc\n  Settable = {}\n  GenHist = FALSE\n"
+                "CONSTRAINT Progress\n"
+                "INVARIANTS ModeAgrees StartIsData StatsDefined HistoriesOwn StopTruth RejectOrRun TimingsOwn NotAccepted\n" % ALL_FIXED)
+    r = vlib.tlc("TraceSolver", cfg, workers=1, env={"TRACE": life}, tag="trace" + label, timeout=1800, heap="8g")
+    res = {"tlc": r, "events": nlines, "progress": _progress(r), "trace_path": life, "accepted": False, "violated": None, "ops_events": nops}
     if r.rc == 12 and r.violation == "NotAccepted":
         res["accepted"] = True
     elif r.rc == 12:
@@ -140,6 +191,12 @@ def validate_trace(tpath, label):
         res["accepted"] = False       # no behaviour consumes the whole trace: rejected at line progress
     else:
         raise vlib.HarnessError("trace validation failed (rc=%s):\n%s" % (r.rc, r.out[-3000:]))
+    if res["accepted"]:
+        # the same recording, operator level: every cycle / start-up / residual evaluation / rhs set-up is the program of CycleOps.tla
+        o = validate_ops(opath, label)
+        res["ops_tlc"] = o["tlc"]
+        if not o["accepted"]:
+            res.update(accepted=False, violated=o["violated"], progress=o["progress"], trace_path=opath, level="operators")
     return res
 
 
